@@ -16,4 +16,7 @@ def check(run, replay=None):
     return msgprops.check(run, "C15", "Props/C15", THEOREMS, {"c01": True, "c02": True}, replay,
                           translated=[("Props/C15T", THEOREMS_T),
                                       # the generics of the message type come out of the checker threaded through MsgVariants::new
-                                      ("Props/C01V", ["c01_translated_variants_of_one_kind", "c01_translated_one_variant"])])
+                                      ("Props/C01V", ["c01_translated_variants_of_one_kind", "c01_translated_one_variant"]),
+                                      # the hand model of the core theorems and the specification proved of the translated code agree
+                                      ("Props/C15B", ["c15_hand_model_unused_generics_are_the_translated_ones",
+                                                      "c15_hand_model_kept_bounds_are_the_translated_ones"])])
